@@ -476,10 +476,10 @@ static long compute_reach(void) {
 static FILE *dumpf = NULL;
 static void dump_edge(void *u, JanetGCObject *blk, int cls, const char *label) {
     (void) u;
-    (void) label;
     int32_t j = node_find(blk);
     /* unknown target: printed as an out-of-range id so that the model sees the dangling edge too */
-    fprintf(dumpf, " %c%ld", "vpkw"[cls], j < 0 ? (long) nnodes : (long) j);
+    /* 'q' = typed pointer to a nested funcdef (janet_mark_funcdef takes a marking level for it while one is left) */
+    fprintf(dumpf, " %c%ld", (cls == 1 && !strcmp(label, "funcdef.def")) ? 'q' : "vpkw"[cls], j < 0 ? (long) nnodes : (long) j);
 }
 static void dump_root(void *u, JanetGCObject *blk, const char *label) {
     (void) u;
@@ -493,6 +493,35 @@ static void dump_ref(Janet v) {
     if (!b) { fputc('-', dumpf); return; }
     int32_t j = node_find(b);
     fprintf(dumpf, "%ld", j < 0 ? (long) nnodes : (long) j);
+}
+
+/* one slot value for the model's SVal: n nil, f false, i other immediate, <id> heap block */
+static void dump_sval(Janet v) {
+    if (janet_checktype(v, JANET_NIL)) { fputc('n', dumpf); return; }
+    if (janet_checktype(v, JANET_BOOLEAN) && !janet_unwrap_boolean(v)) { fputc('f', dumpf); return; }
+    JanetGCObject *b = val_block(v);
+    if (!b) { fputc('i', dumpf); return; }
+    int32_t j = node_find(b);
+    fprintf(dumpf, "%ld", j < 0 ? (long) nnodes : (long) j);
+}
+
+/* `w`/`wa` line: id kind count deleted slots... (tables: key|value per slot of data[0..capacity); arrays: data[0..count)) */
+static void dump_weak_slots(const char *tag, size_t i) {
+    Node *n = &nodes[i];
+    if (n->kind == JANET_MEMORY_ARRAY_WEAK) {
+        JanetArray *a = (JanetArray *) n->p;
+        fprintf(dumpf, "%s %zu %d %d 0", tag, i, n->kind, (int) a->count);
+        for (int32_t k = 0; k < a->count; k++) { fputc(' ', dumpf); dump_sval(a->data[k]); }
+        fputc('\n', dumpf);
+    } else if (n->kind == JANET_MEMORY_TABLE_WEAKK || n->kind == JANET_MEMORY_TABLE_WEAKV || n->kind == JANET_MEMORY_TABLE_WEAKKV) {
+        JanetTable *t = (JanetTable *) n->p;
+        fprintf(dumpf, "%s %zu %d %d %d", tag, i, n->kind, (int) t->count, (int) t->deleted);
+        if (t->data)
+            for (int32_t k = 0; k < t->capacity; k++) {
+                fputc(' ', dumpf); dump_sval(t->data[k].key); fputc('|', dumpf); dump_sval(t->data[k].value);
+            }
+        fputc('\n', dumpf);
+    }
 }
 
 static void dump_graph(void) {
@@ -544,6 +573,8 @@ static void dump_graph(void) {
     fprintf(dumpf, "roots");
     roots_enum(dump_root, NULL);
     fprintf(dumpf, "\n");
+    /* slot arrays of the weak blocks the first pass of janet_sweep will look at (REACHABLE | DISABLED), before the sweep */
+    for (size_t i = 0; i < nnodes; i++) if (nodes[i].marked || nodes[i].disabled) dump_weak_slots("w", i);
 }
 
 /* ------------------------------------------------------------------ the midpoint oracle */
@@ -778,6 +809,9 @@ static void midpoint_hook(void) {
 #endif
     }
     if (dump_path && dumpf) {
+        /* the weak blocks' slot arrays after the REAL sweep */
+        if (opt_sweepcheck)
+            for (size_t i = 0; i < nnodes; i++) if (nodes[i].reach == 2 && !nodes[i].threaded) dump_weak_slots("wa", i);
         /* survivors after the real sweep, as ids of the pre-sweep snapshot */
         fprintf(dumpf, "after");
         if (opt_sweepcheck)
